@@ -805,6 +805,9 @@ def replay_case(task):
     return base.generic_replay_case(_families(), task)
 
 
+THOROUGH_KEEP = {'*': 0.4}      # see vf/runner.py (time)
+
+
 def cases(tier, seed):
     out = []
     first = True
